@@ -78,7 +78,8 @@ struct to_integer_options {
     /// Accept an optional leading '+' (strtol, atoi, stoi, ...)
     bool allow_plus_sign = false;
 
-    /// Skip an optional 0x or 0X in front of the digits if base is 16 (strtol, stoi, ...)
+    /// Skip an optional 0x or 0X in front of the digits if base is 16 and detect the
+    /// base if it is 0: 16 after 0x or 0X, 8 after a leading 0, 10 otherwise (strtol, stoi, ...)
     bool allow_base_prefix = false;
 };
 
@@ -106,10 +107,9 @@ struct to_integer_result {
 template <integral Int, to_integer_options Options = to_integer_options{}>
 [[nodiscard]] constexpr auto to_integer(string_view str, Int base = Int(10)) noexcept -> to_integer_result<Int>
 {
-    auto const length        = str.size();
-    auto const wouldOverflow = detail::overflow_checker<Int, Options.check_overflow>{base};
-    auto const makeError     = [str](auto err) { return to_integer_result<Int>{.end = str.data(), .error = err}; };
-    auto const parseDigit    = [](int ch) -> Int {
+    auto const length     = str.size();
+    auto const makeError  = [str](auto err) { return to_integer_result<Int>{.end = str.data(), .error = err}; };
+    auto const parseDigit = [](int ch) -> Int {
         if (etl::isdigit(ch) != 0) {
             return static_cast<Int>(ch - int{'0'});
         }
@@ -146,10 +146,16 @@ template <integral Int, to_integer_options Options = to_integer_options{}>
     if constexpr (Options.allow_base_prefix) {
         auto const hasPrefix = length - pos > 2 and str[pos] == '0' and (str[pos + 1] == 'x' or str[pos + 1] == 'X')
                            and parseDigit(static_cast<int>(str[pos + 2])) < Int(16);
+        if (base == Int(0)) {
+            base = hasPrefix ? Int(16) : (str[pos] == '0' ? Int(8) : Int(10));
+        }
         if (base == Int(16) and hasPrefix) {
             pos += 2;
         }
     }
+
+    // after the base is known: the limits are divided by it
+    auto const wouldOverflow = detail::overflow_checker<Int, Options.check_overflow>{base};
 
     // first digit
     auto value = [&] {
